@@ -1015,6 +1015,14 @@ func (s *sink) handleReqRespBatch(
 	// work sequentially; if this is not the first batch then an error
 	// happened and this later batch is no longer a part of a seq chain.
 	if !batch.isOwnersFirstBatch() {
+		// We skip the result, but the response still says what the
+		// broker did with this attempt: on success (or an error that
+		// leaves the outcome ambiguous) the batch may be in the log.
+		// It will be resent with the same sequence; until that gives
+		// a definitive answer we must not fail it from load errors.
+		if rp.ErrorCode == 0 || rp.ErrorCode == kerr.RequestTimedOut.Code || rp.ErrorCode == kerr.NotEnoughReplicasAfterAppend.Code {
+			batch.unsureIfProduced = true
+		}
 		if debug {
 			if err := kerr.ErrorForCode(rp.ErrorCode); err == nil {
 				if nrec > 0 {
@@ -1336,6 +1344,15 @@ func (s *sink) handleRetryBatches(
 	var numRetryBatches, numMoveBatches int
 	retry.eachOwnerLocked(func(batch seqRecBatch) {
 		numRetryBatches++
+		// If the request failed client side (no response) after this
+		// batch was serialized for writing, the broker may have
+		// appended it. We must remember that: a later attempt that
+		// receives a retryable error response re-enables failing from
+		// load errors, and failing the batch then would drop records
+		// that may be in the log and reuse their sequence numbers.
+		if !canFail && !batch.canFailFromLoadErrs {
+			batch.unsureIfProduced = true
+		}
 		if !batch.isOwnersFirstBatch() {
 			if debug {
 				logger.Log(LogLevelDebug, "retry batch is not the first batch in the owner, skipping result",
